@@ -635,6 +635,8 @@ def parse_units(s) :
     for b in blocks :
         if b[2] == "" :
             b[2] = "1"
+        if not (b[2].isascii() and b[2].lstrip("-").isdigit()) :
+            raise ValueError("invalid exponent \""+b[2]+"\".")
         b[2] = int(b[2])
         if b[0] == "/" :
             b[2] = -b[2]
@@ -1305,9 +1307,7 @@ def parse_unitvalue(s="") :
         units = parse_units("")
     else :
         value = float(tok[0])
-        us = ""
-        for i in range(1, len(tok)):
-            us += tok[i]
+        us = " ".join(tok[1:])
         units = parse_units(us)
     return UnitValue(value, units)
 
